@@ -2761,6 +2761,13 @@ package gomatrixserverlib
 //@   ensures is-the-version-table: forall v string :: (v in result) <==> verKnown(v)
 //@   assigns nothing
 
+// the join event a resident server returns replaces ours only if it is a join of the same user in the same room
+//@ func isWellFormedJoinMemberEvent
+//@   property C15, C18:safety
+//@   requires event != nil && roomID != nil
+//@   ensures exact: result <==> (event.Membership()[1] == nil && event.Membership()[0] == "join" && event.RoomID().String() == roomID.String() && event.StateKeyEquals(string(senderID)))
+//@   assigns nothing
+
 //@ func checkEventsContainCreateEvent
 //@   property C15
 //@   nosafety
